@@ -267,3 +267,49 @@ func TestF11_FormatAboveLeadingDigit(t *testing.T) {
 		}
 	}
 }
+
+// F14: a zero keeps a stale exponent that Append used
+func TestF14_ZeroStaleExponent(t *testing.T) {
+	x := dec("1e100", 5, 0)
+	x.Sub(x, x)
+	if got := x.String(); got != "0" {
+		t.Errorf("x=1e100; x.Sub(x,x).String() = %q, want \"0\"", got)
+	}
+	y := dec("1e-10", 5, 0)
+	y.Sub(y, y)
+	if got := y.Text('f', -1); got != "0" {
+		t.Errorf("y=1e-10; y.Sub(y,y).Text('f',-1) = %q, want \"0\"", got)
+	}
+}
+
+// F15: flag combinations
+func TestF15_FormatFlags(t *testing.T) {
+	inf := new(decimal.Decimal).SetInf(false)
+	if got, want := fmt.Sprintf("% +f", inf), fmt.Sprintf("% +f", math.Inf(1)); got != want {
+		t.Errorf("%% +f of +Inf = %q, fmt prints %q", got, want)
+	}
+	x := dec("125", 5, 0)
+	if got, want := fmt.Sprintf("%-010.2f", x), fmt.Sprintf("%-010.2f", 125.0); got != want {
+		t.Errorf("%%-010.2f of 125 = %q, fmt prints %q", got, want)
+	}
+}
+
+// F16: Parse must return nil with an error
+func TestF16_ParseNilOnError(t *testing.T) {
+	d, _, err := new(decimal.Decimal).Parse("1x", 10)
+	if err == nil || d != nil {
+		t.Errorf("Parse(\"1x\",10) = %v, %v; want nil and an error", d, err)
+	}
+}
+
+// F11b: unknown formats are not affected by the rounding branch
+func TestF11b_UnknownFormat(t *testing.T) {
+	x := dec("-0.001", 5, decimal.ToNegativeInf)
+	if got := x.Text('x', 0); got != "%x" {
+		t.Errorf("Text('x',0) of -0.001 = %q, want \"%%x\"", got)
+	}
+	y := dec("0.001", 5, decimal.ToNegativeInf)
+	if got := y.Text('x', 0); got != "%x" {
+		t.Errorf("Text('x',0) of 0.001 = %q", got)
+	}
+}
